@@ -216,15 +216,24 @@ func (stg *Stage) ToFile(path string) error {
 	errPrefix := "writing stage " + path
 	// TODO: If we stop relying on the project-wide lock file, this should be
 	// flocked.
-	stageFile, err := os.Create(path)
+	// Write to a temporary file in the same directory and rename it over the
+	// destination, so an interrupted write never leaves a truncated file.
+	stageFile, err := os.CreateTemp(filepath.Dir(path), ".dud-stage-*")
 	if err != nil {
 		return errors.Wrap(err, errPrefix)
 	}
+	defer os.Remove(stageFile.Name())
 	defer stageFile.Close()
 	if err := stg.Serialize(stageFile); err != nil {
 		return errors.Wrap(err, errPrefix)
 	}
-	return nil
+	if err := stageFile.Chmod(0o644); err != nil {
+		return errors.Wrap(err, errPrefix)
+	}
+	if err := stageFile.Close(); err != nil {
+		return errors.Wrap(err, errPrefix)
+	}
+	return errors.Wrap(os.Rename(stageFile.Name(), path), errPrefix)
 }
 
 // CalculateChecksum returns the checksum of the Stage as it would be set in
